@@ -51,7 +51,7 @@ func propC15(g *G, n int) {
 			for _, f := range elemFns {
 				emit(g.drm(), f, []string{xs})
 			}
-			for _, f := range []string{"Decimal.IsNaN", "Decimal.Signbit", "Decimal.IsZero", "Decimal.Payload", "Abs", "Decimal.Neg", "Decimal.Canonical", "Round", "Trunc", "Ceil", "Floor", "Frexp", "Decimal.Sign"} {
+			for _, f := range []string{"Decimal.IsNaN", "Decimal.Signbit", "Decimal.IsZero", "Decimal.Payload_", "Abs", "Decimal.Neg", "Decimal.Canonical", "Round", "Trunc", "Ceil", "Floor", "Frexp", "Decimal.Sign"} {
 				emit(0, f, []string{xs})
 			}
 			for _, s := range []string{"-1", "0", "1"} {
